@@ -104,9 +104,11 @@ func c09DecodeClass(err error) string {
 type c09Interp struct {
 	c     *Ctx
 	slots map[int]*archive.BooleanArchive
-	// a slot is tainted after a Decode that failed: the Go code then keeps the words it has
-	// already overwritten and the old memoised text (transcribed quirk, see the Lean model);
-	// direct property failures are not raised for tainted slots (counted instead).
+	// a slot is tainted after a failing Decode that CHANGED it (a partial write: more than 64 entries,
+	// right entry count, first entry good, a later one bad): the Go code then keeps the words it has
+	// already overwritten and the old memoised text (transcribed quirk, see the Lean model); direct
+	// property failures are not raised for tainted slots (counted instead).  Every other failing
+	// Decode must leave the archive untouched (checked) and the property clauses stay in force.
 	tainted map[int]bool
 	recent  []string // op lines since the last reset (context of a direct failure)
 }
@@ -248,10 +250,41 @@ func (in *c09Interp) exec(line string) string {
 			return "bad-op"
 		}
 		var err error
+		wordsBefore, cacheBefore := a.VerifWords(), a.VerifCachedEncoding()
 		if p := protect(func() { err = a.Decode(t) }); p != "" {
 			return "panic"
 		}
-		in.tainted[atoi(w[1])] = err != nil
+		if err == nil {
+			in.tainted[atoi(w[1])] = false
+			return c09DecodeClass(err)
+		}
+		// a failing Decode: only a *partial write* (right entry count, >= 2 entries, entry 0 parses, a later one does
+		// not) may leave a trace; every other failure must leave words and memoised text exactly as they were, and
+		// even a partial write keeps size, word count, memoised text and the last word (Lean: failed_decode_unchanged,
+		// failed_decode_keeps_len_high)
+		wordsAfter, cacheAfter := a.VerifWords(), a.VerifCachedEncoding()
+		changed := cacheAfter != cacheBefore || len(wordsAfter) != len(wordsBefore)
+		for i := 0; !changed && i < len(wordsAfter); i++ {
+			changed = wordsAfter[i] != wordsBefore[i]
+		}
+		entries := strings.Split(t, ":")
+		partial := false
+		if len(entries) == len(wordsBefore) && len(entries) >= 2 {
+			_, e0 := strconv.ParseUint(entries[0], 16, 64)
+			partial = e0 == nil
+		}
+		lastKept := len(wordsAfter) == len(wordsBefore) && (len(wordsAfter) == 0 || wordsAfter[len(wordsAfter)-1] == wordsBefore[len(wordsBefore)-1])
+		if (changed && !partial) || cacheAfter != cacheBefore || !lastKept {
+			in.c.Fail("failed-decode-leaves-archive", "boolarchive:failed-decode-wrote",
+				fmt.Sprintf("size %d: Decode(%q) failed (%v) and changed the archive: words %X -> %X, memoised text %q -> %q (partial write possible: %v)",
+					a.Len(), t, err, wordsBefore, wordsAfter, cacheBefore, cacheAfter, partial), append([]string(nil), in.recent...))
+		}
+		if changed {
+			in.tainted[atoi(w[1])] = true
+			in.c.Stat("dec failed: partial write (words in front of the bad entry overwritten, memoised text kept)")
+		} else {
+			in.c.Stat("dec failed: archive untouched (property clauses stay in force)")
+		}
 		return c09DecodeClass(err)
 	case "eqv":
 		a, b := slot(1), slot(2)
@@ -633,6 +666,28 @@ func (in *c09Interp) malformedScript(r *Rng, n int) {
 	}
 }
 
+// negativeIndexScript: Go `int` indices below zero, systematically: -1..-63 are silent no-ops that still drop the
+// memoised text (word 0, mask 0), <= -64 and anything on the empty archive panic (runtime index error); the
+// content, the raw words and the re-derived text must be untouched either way.
+func (in *c09Interp) negativeIndexScript(r *Rng, n int) {
+	in.do("reset")
+	in.do(fmt.Sprintf("new 0 %d", n))
+	in.do("fill 0 " + c09Bits(c09RandBits(r, n, 0.5)))
+	for _, idx := range []int{-1, -2, -31, -32, -62, -63, -64, -65, -127, -128, -129, -1 << 31, -1 << 62} {
+		if r.Bool() {
+			in.do("enc 0") // a memoised text is present when the negative index arrives
+		}
+		in.do(fmt.Sprintf("get 0 %d", idx))
+		in.do(fmt.Sprintf("set 0 %d %s", idx, b2s(r.Bool())))
+		in.do("state 0")
+		in.do(fmt.Sprintf("set 0 %d 1", idx))
+		in.do(fmt.Sprintf("get 0 %d", idx))
+		in.do("state 0")
+		in.do("enc 0")
+		in.do("check 0")
+	}
+}
+
 func (in *c09Interp) randomOpsScript(r *Rng, n int, steps int) {
 	in.do("reset")
 	in.do(fmt.Sprintf("new 0 %d", n))
@@ -768,6 +823,10 @@ func suiteBoolArchive(c *Ctx) {
 			}
 			in.roundTripScript(bs, other)
 		}
+	}
+	// 2b. negative indices, sizes around the word boundaries (and the empty archive)
+	for _, n := range []int{0, 1, 2, 13, 63, 64, 65, 128, 130, 200} {
+		in.negativeIndexScript(r, n)
 	}
 	// 3. malformed encodings, sizes around the word boundaries
 	for _, n := range []int{0, 1, 13, 63, 64, 65, 127, 128, 129, 200} {
